@@ -16,7 +16,9 @@ import shutil
 from fv import common, tlc
 from fv.report import Report
 
-ATOM_TEXT = {"a": "a", "b": "b", "c": "c", "d": "d", "F": "f(x, 2)", "H": "np.log(z)", "Q": "`q q`", "g": "g", "h": "h", "k": "k",
+# variable names are written with several characters and as anagrams of each other (x12 / x21, g12 / g21):
+# terms are told apart by their factors, not by the letters of their names
+ATOM_TEXT = {"a": "x12", "b": "x21", "c": "yy1", "d": "y1y", "F": "f(x, 2)", "H": "np.log(z)", "Q": "`q q`", "g": "g12", "h": "g21", "k": "k",
              # calls that differ from F only in one place (argument value, keyword value, keyword name, callee)
              "K": "f(x, k=2)", "L": "f(x, k=3)", "M": "f(x, j=2)", "N": "f(x, 3)", "O": "f2(x, 2)", "P": "f(z, 2)",
              "R": "f(np.abs(x), 2)", "S": "f(x + 1, 2)"}
